@@ -176,6 +176,10 @@ NAME_SHAPES = [
     ("two\\nlines", ["two_lines", "Two_Lines"]),
     ("dash-name 2021", ['"dash-name_2021"', '"Dash-Name_2021"']),
     ("Total  Cost", ["Total_Cost", "total_cost"]),
+    ("Can't wait'", ["Can't_wait'", "can't_wait'"]),
+    ("Subsidy, R&D and\\ncampaign costs", ['"Subsidy,_R&D_and_campaign_costs"']),
+    ("A>B<C", ['"A>B<C"']),
+    ("rate %", ["rate_%", "Rate_%"]),
 ]
 
 # inputs outside the supported grammar: must fail loudly
@@ -309,6 +313,9 @@ def skeleton(n):
 
 # ---- name shapes -----------------------------------------------------------------------------
 
+_name_rejected = []
+
+
 def check_names(b):
     """Each name shape defines a variable with value 11; equations `ref * 2 + a` over every
     reference spelling must evaluate to 22 + a."""
@@ -329,12 +336,13 @@ def check_names(b):
             v = sim.equation(xmile.find_key(sim, vn), 1)
             base = sim.equation(xmile.find_key(sim, name), 1)
         except Exception as e:
+            _name_rejected.append("%s via %s" % (name, r))
             continue   # loud rejection of a name shape is allowed
         want = (11 * 2 + b["a"]) if vn.startswith("nm") else (b["a"] - (11 - 1) / 2)
         if not core.close(base, 11) or not core.close(v, want):
             viol.append(("names/%s via %s" % (name, r), {"name": name, "ref": r, "eqn": eqn, "binding": b},
                          "variable %r referenced as %r: %r = %r (want %r), variable itself %r" % (name, r, eqn, v, want, base)))
-    return viol, n
+    return viol, (n, sorted(set(_name_rejected)))
 
 
 def check_unsupported(b):
@@ -430,7 +438,7 @@ def run(ctx):
     for i in range(0, len(trees), max(1, len(trees) // 6)):
         samples.append({"ast": skeleton(trees[i]), "min": eq_text(trees[i], "min", bs[0]), "full": eq_text(trees[i], "full", bs[0])})
     misc = core.pmap(_work_misc, [("names", bs[0]), ("unsupported", bs[0]), ("modules", bs[0])])
-    n_names = misc[0][1]
+    n_names, names_rejected = misc[0][1]
     n_unsup = misc[1][1] + misc[2][1]
     for viol, _ in misc:
         for sig, case, detail in viol:
@@ -444,7 +452,7 @@ def run(ctx):
                 "; each AST x spellings %r; name shapes x reference spellings; unsupported inputs. distinct = distinct AST; "
                 "non-trivial = compiled and compared with the XMILE reference in at least one spelling" % (sps,),
         "asts": len(trees), "spellings": sps, "bindings": len(bs), "outcomes": counts, "rejected_kinds": rej,
-        "documents_compiled": len(jobs), "name_cases": n_names, "unsupported_inputs": n_unsup,
+        "documents_compiled": len(jobs), "name_cases": n_names, "name_shapes_rejected_loudly": names_rejected, "unsupported_inputs": n_unsup,
         "samples": samples,
     }, assumptions=["MOD on positive operands only; ROUND/INT/STEP/comparisons away from ties",
                     "a loud rejection (exception at compile, import or evaluation) is allowed for any equation",
